@@ -32,6 +32,9 @@ from flexstack.btp.btp_header import BTPAHeader, BTPBHeader
 from flexstack.btp.router import Router as BTPRouter
 from flexstack.btp.service_access_point import BTPDataRequest
 import flexstack.geonet.router as router_mod
+import flexstack.geonet.location_table as loct_mod
+from flexstack.security.sn_sap import SNVERIFYConfirm, ReportVerify
+import dsched
 
 MODULES = ["Props.C02"] + __import__("gen_extract").bridge_modules("C02")   # + bridge lemmas of the functions py2lean could extract
 DRIVERS = ["Wire"]
@@ -45,8 +48,14 @@ TRUSTED = [
     "send/forward (geometry, location table, CBF timers) is outside C02 - only the octets of what is sent are judged",
 ]
 ASSUMPTIONS = [
-    "GNDataRequest.length == len(data) (the BTP router guarantees it); originated packets: security disabled (the secured "
-    "envelope is C03/C05); forwarding: unsecured packets + one secured scenario",
+    "a caller that enters at the GeoNetworking service access point passes GNDataRequest.length == len(data) (contract of the "
+    "GN-DATA.request primitive; PL is that length). NOT assumed for requests entering at the BTP layer: btp_data_request is "
+    "modelled (btpGnRequest) and exercised with ANY declared BTPDataRequest.length (0, stale, too small, too large) - PL must be "
+    "the number of payload octets emitted (Lean btp_pl_is_emitted_payload + regenerated fact btp_length_fact)",
+    "originated packets: security disabled (the secured envelope is C03/C05); forwarding: unsecured packets, one signed DENM "
+    "through a verifying forwarder, and secured/unsecured packets with a stub SN-VERIFY service (the envelope is opaque; the "
+    "verified plain message is an input) incl. two receive threads on one router under harness/dsched.py (line-granular "
+    "pre-emption in geonet/router.py, lock points; all 1-pre-emption schedules of the always-on pair)",
     "requested lifetimes < 1 000 000 ms (the cap above is known finding C20-KF1); the LT octet is judged by its VALUE "
     "(greatest representable lifetime not exceeding the request), the standard does not fix the (multiplier, base) pair",
     "interface convention for the hop limit (property text of C20, Lean LTSpec.requestedHops): request.max_hop_limit 0 and 1 mean "
@@ -787,6 +796,7 @@ def mk_router(mibp, ego, **kw):
 
 
 KIND_HT = {"shb": (5, 0), "gbc": (4, None), "gac": (3, None), "guc": (2, 0)}
+EXT_OCTETS = {"shb": 28, "gbc": 44, "gac": 44, "guc": 48}      # extended header octets behind basic (4) + common (8) header
 
 
 def emit(case):
@@ -826,16 +836,19 @@ def emit(case):
                 if not case.get("via_ls"):
                     r.location_table.new_shb_packet(mk_lpv(peer), b"")
                 dest = mk_addr(peer[0:3])
-            if rq["btp"] is not None and kind != "guc":
+            if rq["btp"] is not None and (kind != "guc" or (rq.get("guc_btp") and not case.get("via_ls"))):
                 b = BTPRouter(r)
+                decl = rq.get("decl")
+                kw = {} if dest is None else {"gn_destination_address": dest}
                 b.btp_data_request(BTPDataRequest(
                     btp_type=CommonNH.BTP_A if rq["btp"] == "A" else CommonNH.BTP_B, source_port=rq["p2"],
                     destination_port=rq["p1"], destination_port_info=rq["p2"], gn_packet_transport_type=ptt, gn_area=area,
-                    gn_max_hop_limit=rq["mhl"], gn_max_packet_lifetime=life, traffic_class=tc, data=payload, length=len(payload)))
+                    gn_max_hop_limit=rq["mhl"], gn_max_packet_lifetime=life, traffic_class=tc, data=payload,
+                    length=len(payload) if decl is None else decl, **kw))
             else:
                 data = payload
                 nh = CommonNH(rq["nh"])
-                if rq["btp"] is not None:   # GUC: the BTP router drops the destination (C01's subject) -> header by hand
+                if rq["btp"] is not None:   # GUC entering at the GN service access point: BTP header by hand
                     hdr = (BTPAHeader(destination_port=rq["p1"], source_port=rq["p2"]) if rq["btp"] == "A"
                            else BTPBHeader(destination_port=rq["p1"], destination_port_info=rq["p2"]))
                     data = hdr.encode() + payload
@@ -943,6 +956,17 @@ def judge_packet(ctx, case, sent, report=True):
             if want_ms < 1_000_000 and lt_ms != greatest_representable(want_ms):
                 out.append((f"{case['kind']}: LT octet {pkt[2]:#x} = {lt_ms} ms for {want_ms} ms", None))
             exp = expected(case, pkt[2])
+            pl_bad = False
+            if case["kind"] in EXT_OCTETS:
+                # clause "the payload-length field equals the number of payload octets", read off the emitted packet itself
+                hdr_len = 12 + EXT_OCTETS[case["kind"]]
+                pl = int.from_bytes(pkt[8:10], "big")
+                if pl != len(pkt) - hdr_len:
+                    pl_bad = True
+                    decl = case["req"].get("decl")
+                    out.append((f"{case['kind']}: PL field = {pl} but {len(pkt) - hdr_len} payload octets are emitted behind the "
+                                f"{hdr_len} header octets" + ("" if decl is None else f" (BTP-Data.request declares length {decl} for "
+                                f"{len(bytes.fromhex(case['req']['payload']))} octets)") + f"; wire {pkt[:16].hex()}...", None))
             if pkt != exp:
                 if len(pkt) != len(exp):
                     out.append((f"{case['kind']}: {len(pkt)} octets on the wire, standard prescribes {len(exp)}: {pkt.hex()} vs {exp.hex()}", None))
@@ -957,6 +981,8 @@ def judge_packet(ctx, case, sent, report=True):
                     if 7 in diffs and case["kind"] == "beacon" and mobile == 1 and pkt[7] == 0x01:
                         diffs.discard(7)
                         out.append(("beacon: flags octet 0x01 on the wire, standard prescribes 0x80 (itsGnIsMobile in bit 0 = MSB)", "C02-KF1"))
+                    if pl_bad:
+                        diffs -= {8, 9}
                     if diffs:
                         i = min(diffs)
                         out.append((f"{case['kind']}: octet {i} ({where(i, case)}) is {pkt[i]:#04x}, standard prescribes {exp[i]:#04x}; "
@@ -1022,10 +1048,17 @@ def g_mib(rng, plain=False):
             rng.choice([0, 0, 1, 63, 64, 128, 255, rng.randint(0, 255)])]
 
 
+def g_decl(rng, n):
+    """DECLARED length of a BTP-Data.request (`BTPDataRequest.length`) for n payload octets: consistent, the dataclass /
+    from_dict default 0, off by one, the length including the BTP header, stale (a previous longer / shorter message), 16-bit
+    extremes.  The property's PL is the number of octets EMITTED: whatever is declared must not reach the wire"""
+    return rng.choice([None, None, 0, 0, max(0, n - 1), n + 1, n + 4, 300, 65535, 65531, rng.randint(0, 2000)])
+
+
 def g_req(rng, kind):
     btp = rng.choice(["A", "B", "B", None])
     n = rng.choice([0, 1, 2, 7, 100, 300, rng.randint(0, 1200)])
-    return {"btp": btp, "nh": rng.choice(REF_COMMON_NH), "p1": g16(rng), "p2": g16(rng),
+    return {"btp": btp, "decl": None if btp is None else g_decl(rng, n), "guc_btp": rng.random() < 0.5, "nh": rng.choice(REF_COMMON_NH), "p1": g16(rng), "p2": g16(rng),
             "payload": bytes(rng.getrandbits(8) for _ in range(n)).hex(),
             "hst": rng.randint(0, 2) if kind in ("gbc", "gac") else 0,
             "tc": [0, rng.randint(0, 1), rng.randint(0, 63)],   # SCF 0: with no neighbour the code buffers (not implemented) instead of sending
@@ -1107,6 +1140,11 @@ def run_packet_cases(ctx, batch, cases, var, tag):
         sub = ("retrans" if case.get("retrans") else "via_ls" if case.get("via_ls") else
                "inside" if case.get("inside") else "plain")
         ctx.cover(f"pkt:{case['kind']}:{tag}:{sub}")
+        if case.get("req") and case["req"].get("btp") is not None:
+            d, n = case["req"].get("decl"), len(case["req"]["payload"]) // 2
+            via = case["kind"] != "guc" or (case["req"].get("guc_btp") and not case.get("via_ls"))
+            ctx.cover("pkt:btp-declared-length:" + ("gn-sap" if not via else "consistent" if d in (None, n) else
+                                                     "default-0" if d == 0 else "smaller" if d < n else "larger"))
         ctx.nontrivial(("pkt", case["kind"], tuple(case["ego"]), tuple(case["mib"]), str(case.get("req")), sub))
         for sc, pk in parts:
             res = judge_packet(ctx, sc, pk, report=False)
@@ -1139,6 +1177,17 @@ def check_packets(ctx, batch, var):
         c = g_case(rng, rng.choice(["shb", "gbc", "guc"]), plain_mib=True)
         c["req"]["payload"] = bytes(rng.getrandbits(8) for _ in range(plen)).hex()
         cases.append(c)
+    # the DECLARED length of the BTP-Data.request against the payload actually given, every kind x BTP-A/B: always
+    for kind in ("shb", "gbc", "gac", "guc"):
+        for btp in ("A", "B"):
+            for plen in (0, 1, 40, rng.randint(2, 900)):
+                for decl in (0, plen + 1, max(0, plen - 1), plen + 4, 300, 65535):
+                    if decl == plen:
+                        continue
+                    c = g_case(rng, kind, plain_mib=True)
+                    c.pop("via_ls", None)
+                    c["req"].update(btp=btp, decl=decl, guc_btp=True, payload=bytes(rng.getrandbits(8) for _ in range(plen)).hex())
+                    cases.append(c)
     # every traffic class through SHB (SCF 1 included: SHB sends regardless)
     for tc in range(0, 256, ctx.scale(5, 1)):
         c = g_case(rng, "shb", plain_mib=True)
@@ -1169,7 +1218,7 @@ def tst_newer(a, b):
     return (a > b and a - b <= (1 << 31)) or (b > a and b - a > (1 << 31))
 
 
-def build_fwd_case(rng, kind, mode=None, rhl_class=None, de_state=None):
+def build_fwd_case(rng, kind, mode=None, rhl_class=None, de_state=None, fwd_ego=None):
     """a conformant packet of `kind` from some source, built with the reference packer, + the forwarder's set-up:
     received RHL in every class (0, 1 = exhausted: nothing may go out; 2; MHL; in between; MHL up to 255), the destination
     of GUC / LS reply absent from, or present in, the forwarder's location table (neighbour with a newer / older / equal
@@ -1192,8 +1241,9 @@ def build_fwd_case(rng, kind, mode=None, rhl_class=None, de_state=None):
     sn = g16(rng)
     lt = rng.randint(1, 63) << 2 | rng.randint(1, 3)
     nh = rng.choice([1, 2])
-    fwd_ego = g_ego(rng, tst)
-    fwd_ego[2] = (1 << 47) + rng.randint(1, 1 << 40)
+    if fwd_ego is None:
+        fwd_ego = g_ego(rng, tst)
+        fwd_ego[2] = (1 << 47) + rng.randint(1, 1 << 40)
     extra = {}
     if kind == "tsb":
         ht, hst, ext = 5, 1, ref_pack(R_TSB, [sn, 0] + lpv_ref(so))
@@ -1435,6 +1485,383 @@ def check_secured_forward(ctx, batch):
         ctx.sample("forward:secured", {"received": rx.hex(), "forwarded": sent[0].hex()}, per_kind=1)
 
 
+# ---- the GN-DATA.request built by the BTP router ------------------------------------------------------------
+class _GNStub:
+    """stands in for the GeoNetworking router below btp.Router: records the GN-DATA.request"""
+
+    def __init__(self):
+        self.reqs = []
+
+    def gn_data_request(self, request):
+        self.reqs.append(request)
+
+    def register_indication_callback(self, cb):
+        pass
+
+
+def btp_request(case):
+    """`btp.Router.btp_data_request` for one BTP-Data.request -> (length, data) of the GN-DATA.request | exception name"""
+    ty, sp, dp, dpi, decl, payload = case["type"], case["sp"], case["dp"], case["dpi"], case["decl"], bytes.fromhex(case["payload"])
+    gn = _GNStub()
+    try:
+        b = BTPRouter(gn)
+        b.btp_data_request(BTPDataRequest(btp_type=CommonNH(ty), source_port=sp, destination_port=dp, destination_port_info=dpi,
+                                          data=payload, length=decl))
+    except Exception as e:  # noqa: BLE001
+        return type(e).__name__
+    if len(gn.reqs) != 1:
+        return f"{len(gn.reqs)}-requests"
+    return gn.reqs[0].length, bytes(gn.reqs[0].data), gn.reqs[0].upper_protocol_entity.value
+
+
+def judge_btp_request(case, res):
+    """ORACLE (EN 302 636-5-1 clause 7 + the PL clause): the T-SDU handed to GeoNetworking is the 4 BTP header octets
+    (BTP-A: destination port, source port; BTP-B: destination port, destination port info) followed by the payload, and the
+    length handed over with it is the number of its octets - whatever length the BTP-Data.request declares"""
+    if case["type"] not in (1, 2) or not all(0 <= case[k] < 65536 for k in ("sp", "dp", "dpi")):
+        return []                       # not a BTP-Data.request the primitive allows (correspondence only)
+    payload = bytes.fromhex(case["payload"])
+    want = (ref_pack(R_BTPA, [case["dp"], case["sp"]]) if case["type"] == 1 else ref_pack(R_BTPB, [case["dp"], case["dpi"]])) + payload
+    if isinstance(res, str):
+        return [f"btp_data_request raised / returned {res} for a well-formed BTP-Data.request"]
+    ln, data, nh = res
+    out = []
+    if data != want:
+        out.append(f"btp_data_request: T-SDU {data[:12].hex()}.. ({len(data)} octets), standard prescribes {want[:12].hex()}.. ({len(want)})")
+    if ln != len(data):
+        out.append(f"btp_data_request: GN-DATA.request length = {ln} for {len(data)} octets of data (BTP-Data.request declares "
+                   f"length {case['decl']} for {len(payload)} payload octets): the common header PL field will not count the payload emitted")
+    if nh != case["type"]:
+        out.append(f"btp_data_request: upper protocol entity {nh} for btp_type {case['type']}")
+    return out
+
+
+def check_btp_requests(ctx, batch):
+    rng = ctx.rng
+    cases = []
+    for _ in range(ctx.scale(300, 3000)):
+        n = rng.choice([0, 1, 2, 40, rng.randint(0, 600)])
+        d = g_decl(rng, n)
+        cases.append({"type": rng.choice([1, 2, 2]), "sp": g16(rng), "dp": g16(rng), "dpi": g16(rng), "decl": n if d is None else d,
+                      "payload": bytes(rng.getrandbits(8) for _ in range(n)).hex()})
+    for ty in (0, 3):                   # not a BTP type -> ValueError
+        cases.append({"type": ty, "sp": 1, "dp": 2, "dpi": 3, "decl": 0, "payload": "00"})
+    for k in ("sp", "dp", "dpi"):       # out-of-width ports (spill / OverflowError: correspondence only)
+        for v in (65536, 70000, 1 << 32):
+            c = {"type": rng.choice([1, 2]), "sp": 1, "dp": 2, "dpi": 3, "decl": 0, "payload": "0102"}
+            c[k] = v
+            cases.append(c)
+    for c in cases:
+        res = btp_request(c)
+        ctx.evals()
+        for w in judge_btp_request(c, res):
+            ctx.violation(w, {"kind": "btpreq", "case": c})
+        n = len(c["payload"]) // 2
+        ctx.cover("btpreq:" + (res if isinstance(res, str) else "declared-" + ("consistent" if c["decl"] == n else "default-0" if c["decl"] == 0
+                                                                                else "smaller" if c["decl"] < n else "larger")))
+        ctx.nontrivial(("btpreq", str(c)))
+        real = res if isinstance(res, str) else f"{res[0]} {hx(res[1])}"
+        batch.add("btp.req", c, real, f"btp req {c['type']} {c['sp']} {c['dp']} {c['dpi']} {c['decl']} {hx(bytes.fromhex(c['payload']))}")
+
+
+# ---- several receive threads on ONE router ---------------------------------------------------------------------
+# Two link layers / interfaces (or any caller-side concurrency) call Router.gn_data_indicate from different threads.  What a
+# thread forwards for ITS packet must not depend on what another thread is doing: an unsecured packet leaves as the
+# received packet with RHL-1, a secured one as the received secured packet with RHL-1 (its OWN envelope).  The threads run under
+# harness/dsched.py (one at a time, pre-emption before every line of geonet/router.py and at every lock operation); the
+# SN-VERIFY service is a stub that accepts the envelopes of the case and hands back their plain message (the envelope is
+# opaque to GeoNetworking: C03/C05 judge it).
+RX_KINDS = ["tsb", "gbc", "gac", "guc", "lsq", "lsr", "shb"]
+RX_FILES = [router_mod.__file__]
+
+
+def build_rx(rng, kind, secured, fwd_ego, rhl_class=None):
+    """one reception: a conformant packet of `kind` (reference packer) and, if `secured`, the opaque secured message the frame
+    carries instead of the plain common header ‖ extended header ‖ payload"""
+    if kind == "shb":
+        so = g_lpv(rng)
+        so[3], so[2] = now_tst(), rng.randint(1, (1 << 47))
+        payload = bytes(rng.getrandbits(8) for _ in range(rng.choice([0, 5, 30])))
+        lt = rng.randint(1, 63) << 2 | rng.randint(1, 3)
+        pkt = (ref_pack(R_BASIC, [1, 1, 0, lt >> 2, lt & 3, 1])
+               + ref_pack(R_COMMON, [rng.choice([1, 2]), 0, 5, 0, 0, rng.randint(0, 1), rng.randint(0, 63), rng.randint(0, 1), 0, len(payload), 1, 0])
+               + ref_pack(R_SHB, lpv_ref(so) + [0]) + payload).hex()
+    else:
+        pkt = build_fwd_case(rng, kind, mode="simple-inside" if kind == "gbc" else "simple", rhl_class=rhl_class, de_state="absent",
+                             fwd_ego=fwd_ego)["pkt"]
+    rx = {"orig": kind, "pkt": pkt, "secured": bool(secured)}
+    if secured:
+        rx["env"] = (b"\x03\x81\x00" + bytes(rng.getrandbits(8) for _ in range(rng.randint(12, 70)))).hex()
+    return rx
+
+
+def rx_frame(rx):
+    """octets on the link: the packet itself, or basic header with NH = 2 (Secured Packet) ‖ secured message"""
+    pkt = bytes.fromhex(rx["pkt"])
+    if not rx["secured"]:
+        return pkt
+    return bytes([(pkt[0] & 0xF0) | 2]) + pkt[1:4] + bytes.fromhex(rx["env"])
+
+
+def rx_want(rx):
+    """ORACLE: what the forwarder has to put on the link for this reception - the RECEIVED frame with RHL-1 (EN 302 636-4-1
+    10.3.x forwarder operations; a secured message is forwarded as received, the basic header is outside the signed part);
+    nothing for SHB (never forwarded) and for a received RHL <= 1"""
+    f = rx_frame(rx)
+    if rx["orig"] == "shb" or f[3] <= 1:
+        return None
+    return f[:3] + bytes([f[3] - 1]) + f[4:]
+
+
+def build_rx_case(rng, kinds=None, secured=None, must_forward=False):
+    """must_forward: every reception of a forwardable type has a received RHL >= 2 (something is due on the link)"""
+    tst = now_tst()
+    fwd_ego = g_ego(rng, tst)
+    fwd_ego[2] = (1 << 47) + rng.randint(1, 1 << 40)
+    kinds = kinds or [rng.choice(RX_KINDS), rng.choice(RX_KINDS)]
+    secured = secured if secured is not None else [rng.random() < 0.5 for _ in kinds]
+    rxs = []
+    for k, sec in zip(kinds, secured):
+        while True:
+            rc = rng.choice([None, None, None, "mid", "2", "max", "1"])
+            rx = build_rx(rng, k, sec, fwd_ego, rhl_class=rc)
+            if not must_forward or k == "shb" or rx_want(rx) is not None:
+                break
+        rxs.append(rx)
+    return {"kind": "rx2", "fwd_ego": fwd_ego, "rx": rxs}
+
+
+class _StubVerify:
+    """SN-VERIFY stand-in: SUCCESS + the plain message for the secured messages of the case, FALSE_SIGNATURE otherwise"""
+
+    def __init__(self, table, note):
+        self.table, self.note = table, note
+
+    def verify(self, request):
+        msg = bytes(request.message)
+        plain = self.table.get(msg)
+        if plain is None:
+            return SNVERIFYConfirm(report=ReportVerify.FALSE_SIGNATURE, certificate_id=b"", its_aid_length=0, its_aid=b"",
+                                   permissions=b"", plain_message=b"")
+        self.note(msg)
+        return SNVERIFYConfirm(report=ReportVerify.SUCCESS, certificate_id=b"\x01" * 8, its_aid_length=1, its_aid=b"\x24",
+                               permissions=b"", plain_message=plain)
+
+
+class RxRun:
+    """the receptions of an rx2 case on ONE real router: serially in the order `serial` (policy None) or one thread per
+    reception under the scheduling policy"""
+
+    def __init__(self, case, policy=None, serial=None, max_steps=40000):
+        rxs = case["rx"]
+        n = len(rxs)
+        frames = [rx_frame(rx) for rx in rxs]
+        table = {bytes.fromhex(rx["env"]): bytes.fromhex(rx["pkt"])[4:] for rx in rxs if rx["secured"]}
+        self.sent = [[] for _ in range(n)]
+        self.events, self.pdus = [], []
+        self.steps, self.choices, self.abort, self.excs = [], [], None, []
+        cur = {"i": None}
+        sched = {"s": None}
+
+        def who():
+            s = sched["s"]
+            if s is None:
+                return cur["i"]
+            me = s.me()
+            return me.tid if me is not None else None
+
+        pending = {}
+        with dsched.patched([router_mod, loct_mod], extra={"Timer": _NoTimer}):
+            r, _ll, inds = mk_router([1, 1, 10, 60, 0], case["fwd_ego"], itsGnAreaForwardingAlgorithm=AreaForwardingAlgorithm.SIMPLE)
+            r.verify_service = _StubVerify(table, lambda msg: pending.__setitem__(who(), msg))
+            run = self
+
+            class LL:
+                def send(self, packet):
+                    run.sent[who()].append(bytes(packet))
+            r.link_layer = LL()
+            orig_pch = r.process_common_header
+
+            def pch(packet, basic_header):
+                i = who()
+                msg = pending.pop(i, None)
+                if msg is not None:
+                    self.events.append(f"E{i}:{hx(msg)}")
+                try:
+                    return orig_pch(packet, basic_header)
+                finally:
+                    if msg is not None:
+                        self.events.append(f"L{i}")
+            r.process_common_header = pch
+            self.has_fp = hasattr(r, "_forward_pdu")
+            if self.has_fp:
+                orig_fp = r._forward_pdu
+
+                def fp(basic_header, common_header, extended_header, payload):
+                    i = who()
+                    bh = basic_header
+                    tail = common_header.encode_to_bytes() + extended_header + payload
+                    self.events.append(f"F{i}:{bh.version},{bh.nh.value},{bh.reserved},{bh.lt.multiplier},{bh.lt.base.value},{bh.rhl}:{hx(tail)}")
+                    k = len(self.pdus)
+                    self.pdus.append(f"{i}:raised")     # the PDU is listed at the position of its F event (the model's order)
+                    out = orig_fp(basic_header, common_header, extended_header, payload)
+                    self.pdus[k] = f"{i}:{hx(bytes(out))}"
+                    return out
+                r._forward_pdu = fp
+
+            def body(i):
+                def go():
+                    r.gn_data_indicate(frames[i])
+                return go
+            with rs.quiet():
+                if policy is None:
+                    for i in (serial or range(n)):
+                        cur["i"] = i
+                        body(i)()
+                else:
+                    s = dsched.DSched(policy, line_files=RX_FILES, opcode_codes=(), max_steps=max_steps)
+                    sched["s"] = s
+                    for i in range(n):
+                        s.spawn(body(i), name=f"rx{i}")
+                    s.run(timeout=30.0)
+                    self.steps = s.steps
+                    self.choices = [c[0] for c in s.steps]
+                    self.abort = s.abort_reason
+                    self.nsteps = s.nsteps
+                    self.excs = [type(ts.exc).__name__ for ts in s.threads if ts.exc is not None]
+        self.case = case
+
+    def judge(self):
+        out = []
+        if self.abort:
+            return [f"run aborted by the scheduler: {self.abort}"]
+        for i, rx in enumerate(self.case["rx"]):
+            want = rx_want(rx)
+            got = self.sent[i]
+            tag = f"reception {i} ({'secured' if rx['secured'] else 'unsecured'} {rx['orig']}, RHL {bytes.fromhex(rx['pkt'])[3]})"
+            if want is None:
+                if got:
+                    out.append(f"{tag}: nothing is to be forwarded, {len(got)} packet(s) sent: {got[0].hex()}")
+            elif len(got) != 1:
+                out.append(f"{tag}: {len(got)} packets sent, expected 1")
+            elif got[0] != want:
+                other = [j for j, o in enumerate(self.case["rx"]) if j != i and o["secured"] and got[0][4:] == bytes.fromhex(o["env"])]
+                out.append(f"{tag}: forwarded {got[0][:8].hex()}.. ({len(got[0])} octets, basic-header NH = {got[0][0] & 15}) is not the "
+                           f"received frame with RHL-1 {want[:8].hex()}.. ({len(want)} octets)"
+                           + (f": the octets behind its basic header are the secured message of reception {other[0]} (another thread)"
+                              if other else ""))
+        return out
+
+
+def rx_model(batch, case, run, tag):
+    if run.has_fp and not run.abort:
+        batch.add("rx.pdu", {"case": case, "schedule": run.choices, "how": tag}, " ".join(run.pdus) or "-", "rx 1 " + " ".join(run.events))
+
+
+RX_BRANCH_KINDS = dsched.BRANCH_KINDS | {"line"}      # pre-emption also before every line of geonet/router.py
+
+
+def enumerate_rx_schedules(run_once, bound, cap, rng):
+    """dsched.enumerate_schedules with `line` pre-emption points as alternatives too (the window a shared per-reception
+    attribute opens need not contain a lock operation): stateless search, children differ from their parent at one later
+    step, at most `bound` pre-emptions; returns (#runs, complete?)"""
+    work, runs, seen = [[]], 0, set()
+    while work:
+        if runs >= cap:
+            return runs, False
+        prefix = work.pop(rng.randrange(len(work)))
+        steps = run_once(prefix)
+        runs += 1
+        choices = [s[0] for s in steps]
+        p = dsched.preemptions(steps, len(prefix))
+        for i in range(len(prefix), len(steps)):
+            chosen, enabled, cur, kind = steps[i]
+            for alt in enabled:
+                if alt == chosen or kind not in RX_BRANCH_KINDS:
+                    continue
+                if p + (1 if (cur is not None and cur in enabled and alt != cur) else 0) > bound:
+                    continue
+                child = tuple(choices[:i] + [alt])
+                if child not in seen:
+                    seen.add(child)
+                    work.append(list(child))
+            if cur is not None and cur in enabled and chosen != cur:
+                p += 1
+    return runs, True
+
+
+def explore_rx(ctx, batch, case, cap, bound=1, model_every=1):
+    """both serial orders, then the schedules with at most `bound` pre-emptions (complete if there are at most `cap`, a seeded
+    random sample of them otherwise); every run judged by the oracle.  Returns #violating runs"""
+    found = 0
+    names = "+".join(("sec-" if rx["secured"] else "") + rx["orig"] for rx in case["rx"])
+    for order in ([0, 1], [1, 0]):
+        run = RxRun(case, None, serial=order)
+        ctx.evals()
+        bad = run.judge()
+        rx_model(batch, case, run, f"serial{order}")
+        if bad:
+            found += 1
+            ctx.violation(f"receptions one after the other {order} on one router [{names}]: {bad[0]}", {"kind": "rx2", "case": dict(case, serial=order)})
+    if found:
+        return found
+    state = {"n": 0}
+
+    def once(prefix):
+        run = RxRun(case, dsched.Replay(prefix))
+        ctx.evals()
+        state["n"] += 1
+        ctx.cover("rx2:preemptions_%d" % min(dsched.preemptions(run.steps), 3))
+        bad = run.judge()
+        if run.abort:
+            ctx.cover("rx2:aborted:" + run.abort)
+            if state.get("noted") is None:
+                state["noted"] = True
+                ctx.note(f"rx2 [{names}]: a scheduled run was aborted ({run.abort}) - not judged (deadlocks are C15's subject)")
+            return run.steps
+        if state["n"] % model_every == 0 or bad:
+            rx_model(batch, case, run, "sched")
+        if bad:
+            state["found"] = state.get("found", 0) + 1
+            if state["found"] == 1:
+                ctx.violation(f"two receive threads on one router [{names}], {dsched.preemptions(run.steps)} pre-emption(s): {bad[0]}",
+                              {"kind": "rx2", "case": dict(case, schedule=run.choices)})
+        state["steps"] = max(state.get("steps", 0), run.nsteps)
+        return run.steps
+    runs, exhausted = enumerate_rx_schedules(once, bound, cap, ctx.rng)
+    ctx.cover("rx2:scheduled_runs", runs)
+    ctx.cover(f"rx2:pair:{names}")
+    if exhausted:
+        ctx.cover("rx2:all-schedules-within-bound-%d" % bound)
+    ctx.nontrivial(("rx2", names, case["rx"][0]["pkt"], case["rx"][1]["pkt"]))
+    ctx.extra.setdefault("rx2", {})[names] = {"runs": runs, "bound": bound, "complete": exhausted, "yield_points": state.get("steps")}
+    return found + state.get("found", 0)
+
+
+def check_rx_threads(ctx, batch, volume=1):
+    rng = ctx.rng
+    # always: a secured single-hop packet (CAM-like: delivered, never forwarded) against an unsecured multi-hop one, ALL schedules
+    # with one pre-emption; secured against secured and secured against unsecured of forwardable types, sampled
+    fixed = [(["shb", "tsb"], [True, False], 100000), (["gbc", "guc"], [True, False], ctx.scale(40, 400)),
+             (["gbc", "tsb"], [True, True], ctx.scale(40, 400)), (["lsr", "gac"], [False, True], ctx.scale(30, 400))]
+    found = 0
+    for kinds, sec, cap in fixed:
+        found += explore_rx(ctx, batch, build_rx_case(rng, kinds, sec, must_forward=True), cap * volume, model_every=4)
+        if found:
+            return found
+    for _ in range(ctx.scale(3, 40) * volume):
+        case = build_rx_case(rng)
+        if not any(rx["secured"] for rx in case["rx"]):
+            case["rx"][rng.randint(0, 1)]["secured"] = True
+            case["rx"] = [dict(rx, env=rx.get("env") or (b"\x03\x81\x00" + bytes(rng.getrandbits(8) for _ in range(20))).hex()) for rx in case["rx"]]
+        found += explore_rx(ctx, batch, case, ctx.scale(25, 300) * volume, model_every=4)
+        if found:
+            break
+    if ctx.thorough and not found:
+        found += explore_rx(ctx, batch, build_rx_case(rng, ["gbc", "tsb"], [True, False]), 3000, bound=2, model_every=20)
+    return found
+
+
 def bridge_report(ctx):
     """make the loss of a bridge obligation visible: evidence field + note + histogram key"""
     active = [m for m in MODULES if m != "Props.C02"]
@@ -1464,6 +1891,15 @@ def run_corpus(ctx, batch, var):
             sent = forward(case["case"])
             judge_forward(ctx, case["case"], sent)
             add_fwd_to_batch(ctx, batch, case["case"], sent)
+        elif k == "btpreq":
+            for w in judge_btp_request(case["case"], btp_request(case["case"])):
+                ctx.violation(w, {"kind": "btpreq", "case": case["case"]})
+        elif k == "rx2":
+            c = case["case"]
+            run = RxRun(c, None, serial=c["serial"]) if "serial" in c else RxRun(c, dsched.Replay(c.get("schedule", [])))
+            for w in run.judge():
+                ctx.violation("corpus rx2: " + w, {"kind": "rx2", "case": c})
+            rx_model(batch, c, run, "corpus")
         elif k == "fwd_secured":
             pass    # the signed-DENM forwarding scenario is always on (check_secured_forward): keys are fresh per run
         ctx.cover("corpus_cases:" + str(k))
@@ -1491,6 +1927,8 @@ def run(ctx):
             check_packets(ctx, batch, var)
             check_forwarding(ctx, batch)
             check_secured_forward(ctx, batch)
+            check_btp_requests(ctx, batch)
+            check_rx_threads(ctx, batch)
     finally:
         pass
     batch.flush()
@@ -1514,6 +1952,8 @@ def search(ctx):
                 check_packets(ctx, batch, var)
                 check_forwarding(ctx, batch)
                 check_secured_forward(ctx, batch)
+                check_btp_requests(ctx, batch)
+                check_rx_threads(ctx, batch, volume=3)
                 batch.items = []
                 if ctx.violations:
                     break
@@ -1552,6 +1992,22 @@ def replay(ctx, obj):
             (int(d.scf), int(d.channel_offload), d.tc_id) != (scf, co, tid)
         print(f"traffic class {tc}: {'violated' if bad else 'ok'}")
         return bad
+    if kind == "btpreq":
+        res = btp_request(case["case"])
+        bad = judge_btp_request(case["case"], res)
+        print(f"btp_data_request({case['case']}) -> {res if isinstance(res, str) else (res[0], res[1][:16].hex() + '..', res[2])}: {bad or 'ok'}")
+        return bool(bad)
+    if kind == "rx2":
+        c = case["case"]
+        with env():
+            run = RxRun(c, None, serial=c["serial"]) if "serial" in c else RxRun(c, dsched.Replay(c.get("schedule", [])))
+        bad = run.judge()
+        for i, rx in enumerate(c["rx"]):
+            w = rx_want(rx)
+            print(f"reception {i}: {'secured' if rx['secured'] else 'unsecured'} {rx['orig']} frame {rx_frame(rx)[:8].hex()}.. -> sent "
+                  f"{[p[:8].hex() + '..(' + str(len(p)) + ')' for p in run.sent[i]]}, prescribed {None if w is None else w[:8].hex() + '..(' + str(len(w)) + ')'}")
+        print(bad or "every reception forwarded its own frame with RHL-1")
+        return bool(bad)
     if kind == "fwd_secured":
         with env():
             res = secured_forward_scenario()
